@@ -203,6 +203,7 @@ def run(chk: Check) -> None:
     run_shared_validators(chk, ix)
     run_overload_helpers_thread_context(chk, ix)
     run_string_annotation_attrs(chk, ix)
+    run_locations_read_before_copied(chk, ix)
 
     r3 = chk.rule("R14.3", "Errors.report clamps end_line >= line and (same line) end_column > column before the ErrorInfo is built", floor=2)
     rp = ix.func("mypy.errors.Errors.report")
@@ -700,3 +701,57 @@ def run_string_annotation_attrs(chk: Check, ix) -> None:
             r.ok(key, rt.loc(ctor[0]))
         else:
             r.violation(key, rt.loc(ctor[0]), f"the branch building {cls} does not set all of {sorted(attrs)}: under --native-parser a `Literal[\"a|b\"]` parameter is analysed as the union `a | b` (`Name \"a\" is not defined`, the type becomes Any) while the default parser yields Literal['a|b']")
+
+
+LOC_ATTRS = {"line", "column", "end_line", "end_column"}
+
+
+def _walk_scope(node: ast.AST, name: str):
+    """ast.walk that does not enter a lambda or comprehension that rebinds `name`."""
+    todo = [node]
+    while todo:
+        n = todo.pop()
+        if isinstance(n, ast.Lambda) and any(a.arg == name for a in n.args.args + n.args.kwonlyargs + n.args.posonlyargs):
+            continue
+        if isinstance(n, (ast.ListComp, ast.SetComp, ast.DictComp, ast.GeneratorExp)) and any(isinstance(t, ast.Name) and t.id == name for g in n.generators for t in ast.walk(g.target)):
+            continue
+        yield n
+        todo.extend(ast.iter_child_nodes(n))
+
+
+def run_locations_read_before_copied(chk: Check, ix) -> None:
+    """R14.13: the native reader copies a node's position only after it has read it."""
+    from ..cfg import CFG
+    r13 = chk.rule("R14.13", "nativeparse builds a node first and fills in its position afterwards (`read_loc(data, node)`; until then line and column are -1). Wherever a reader function passes a local node to read_loc, every read of that node's line/column/end_line/end_column and every `set_line_column[_range](target, node)` in the function lies behind the read_loc call on every CFG path from the entry: a position copied earlier (the signature type of a FuncDef, an argument's variable) stays -1, and diagnostics reported on the copy have no line, escape `# type: ignore` and are merged across functions", floor=8)
+    m = ix.module("mypy.nativeparse")
+    n = 0
+    for f in m.functions.values():
+        located = {c.args[1].id for c in ast.walk(f.node) if isinstance(c, ast.Call) and call_name(c) == "read_loc" and len(c.args) > 1 and isinstance(c.args[1], ast.Name)}
+        if not located:
+            continue
+        g = None
+        for x in sorted(located):
+            def uses_loc(nd) -> bool:
+                for src in ([nd.stmt] if nd.kind == "stmt" and nd.stmt is not None and not isinstance(nd.stmt, (ast.If, ast.While, ast.For, ast.Try, ast.With, ast.FunctionDef)) else list(nd.exprs)):
+                    for a in _walk_scope(src, x):
+                        if isinstance(a, ast.Attribute) and a.attr in LOC_ATTRS and isinstance(a.value, ast.Name) and a.value.id == x and isinstance(a.ctx, ast.Load):
+                            return True
+                        if isinstance(a, ast.Call) and call_name(a) in ("set_line_column", "set_line_column_range") and len(a.args) > 1 and isinstance(a.args[1], ast.Name) and a.args[1].id == x:
+                            return True
+                return False
+            g = g or CFG(f.node)
+            users = [nd for nd in g.nodes if uses_loc(nd)]
+            if not users:
+                continue
+            n += 1
+            readers = [nd for nd in g.nodes if any(call_name(c) == "read_loc" and len(c.args) > 1 and isinstance(c.args[1], ast.Name) and c.args[1].id == x for c in nd.calls())]
+            # a node may be (re)built on several paths; definitions restart the obligation
+            key = f"{f.name}: the position of `{x}` is used only after read_loc(data, {x})"
+            early = [u for u in users if u not in readers and not g.must_pass(g.entry, [u], readers, labels_excluded=("exc",))]
+            if not early:
+                r13.ok(key, f.loc())
+            else:
+                u = early[0]
+                r13.violation(key, f.loc(u.stmt) if u.stmt is not None else f.loc(), f"`{norm(u.stmt)[:70] if u.stmt is not None else x}` reads the position of `{x}` on a path that has not passed `read_loc(data, {x})`: the copy keeps line -1 / column -1 (fastparse sets the position in the constructor call, so the default parser reports the same diagnostic at the `def` line)")
+    if n < 8:
+        raise AnalysisError(f"nativeparse: only {n} (function, node) pairs with read_loc and a later use of the position found")
